@@ -1,0 +1,73 @@
+//go:build verif
+
+package pipeline
+
+import (
+	"github.com/buildkite/go-pipeline/ordered"
+	"github.com/buildkite/interpolate"
+)
+
+// VerifTransformer is the exported face of stringTransformer.
+type VerifTransformer interface {
+	Transform(string) (string, error)
+}
+
+// VerifEnvTransformer returns the transformer Pipeline.Interpolate uses.
+func VerifEnvTransformer(env interpolate.Env) VerifTransformer {
+	return envInterpolator{env: env}
+}
+
+// VerifMatrixTransformer returns the transformer InterpolateMatrixPermutation uses.
+func VerifMatrixTransformer(mp MatrixPermutation) VerifTransformer {
+	return newMatrixInterpolator(mp)
+}
+
+// VerifInterpolateAny exposes interpolateAny.
+func VerifInterpolateAny(tf VerifTransformer, o any) (any, error) {
+	return interpolateAny(tf, o)
+}
+
+// VerifInterpolateMap exposes interpolateMap for map[string]any.
+func VerifInterpolateMap(tf VerifTransformer, m map[string]any) error {
+	return interpolateMap(tf, m)
+}
+
+// VerifInterpolateMapSS exposes interpolateMap for map[string]string.
+func VerifInterpolateMapSS(tf VerifTransformer, m map[string]string) error {
+	return interpolateMap(tf, m)
+}
+
+// VerifInterpolateMapValuesSS exposes interpolateMapValues for map[string]string.
+func VerifInterpolateMapValuesSS(tf VerifTransformer, m map[string]string) error {
+	return interpolateMapValues(tf, m)
+}
+
+// VerifInterpolateOrderedMap exposes interpolateOrderedMap for *ordered.MapSA.
+func VerifInterpolateOrderedMap(tf VerifTransformer, m *ordered.MapSA) error {
+	return interpolateOrderedMap(tf, m)
+}
+
+// VerifInterpolateStep calls the unexported interpolate method of a step.
+func VerifInterpolateStep(tf VerifTransformer, s Step) error {
+	return s.interpolate(tf)
+}
+
+// VerifInterpolateEnvBlock exposes Pipeline.interpolateEnvBlock.
+func (p *Pipeline) VerifInterpolateEnvBlock(env InterpolationEnv, preferRuntimeEnv bool) error {
+	return p.interpolateEnvBlock(env, preferRuntimeEnv)
+}
+
+// VerifValidatePermutation exposes Matrix.validatePermutation.
+func (m *Matrix) VerifValidatePermutation(p MatrixPermutation) error {
+	return m.validatePermutation(p)
+}
+
+// VerifStepFromMap exposes stepFromMap.
+func VerifStepFromMap(o *ordered.MapSA) (Step, error) {
+	return stepFromMap(o)
+}
+
+// VerifUnmarshalStep exposes unmarshalStep.
+func VerifUnmarshalStep(o any) (Step, error) {
+	return unmarshalStep(o)
+}
